@@ -117,6 +117,37 @@ func (c02) Generate(r *engine.Rand, index int, tier string) *engine.Scenario {
 		sc.Cycles = uint64(len(g.code))*4 + 64
 		return sc
 	}
+	if index%30 == 14 {
+		// the wait loops guests are made of, with the LCD on: poll LY until a line is reached, poll STAT
+		// for a mode, count DIV up, a counted delay - every round takes its documented cycles and the
+		// instruction behind the loop starts on the loop's own grid
+		sc.Class = "idiom-loops"
+		g := &progGen{r: r, base: lsCodeWRAM}
+		if r.Chance(1, 3) {
+			g.base = lsCodeROM
+		}
+		g.emitStackSetup()
+		for i, n := 0, r.Range(1, 3); i < n; i++ {
+			g.filler(r.Intn(8))
+			switch r.Intn(5) {
+			case 0, 1:
+				g.emit(0xf0, 0x44, 0xfe, uint8(r.Range(1, 4)+i*4), 0x20, 0xfa) // LDH A,(LY) ; CP n ; JR NZ,-6
+			case 2:
+				g.emit(0xf0, 0x41, 0xe6, 0x03, 0xfe, uint8(r.Intn(4)), 0x20, 0xf8) // LDH A,(STAT) ; AND 3 ; CP m ; JR NZ,-8
+			case 3:
+				g.emit(0xf0, 0x04, 0xfe, uint8(r.Range(2, 9)), 0x38, 0xfa) // LDH A,(DIV) ; CP n ; JR C,-6
+			default:
+				g.emit(0x06, uint8(r.Range(2, 40)), 0x05, 0x20, 0xfd) // LD B,n ; DEC B ; JR NZ,-3
+			}
+			g.emit(engine.Pick(r, []uint8{0x00, 0x3c, 0x04, 0x0c, 0x2f}))
+		}
+		g.emit(0x00, 0x00)
+		g.finish()
+		lsScenario(sc, r, g)
+		sc.SetP("keep_lcd", 1)
+		sc.Cycles = uint64(len(g.code))*4 + 14*114 + 2600
+		return sc
+	}
 	sc.Class = "program"
 	genCPUProgram(r, sc, r.Range(1, 40))
 	if index%4 == 3 {
